@@ -43,14 +43,17 @@ class CSemantics:
         self.intptr_type = self.int_type.pointer_to()
         self.va_list_type = self.get_type(["__builtin_va_list"])
 
-        # Choose proper integer type for difference:
+        # Choose proper integer types for sizes and pointer differences:
         if self.context.sizeof(self.int_type) == self.context.sizeof(
             self.intptr_type
         ):
-            self.size_t_type = self.int_type
+            self.ptrdiff_t_type = self.int_type
+            # The result of sizeof has an unsigned integer type:
+            self.size_t_type = self.get_type(["unsigned", "int"])
         else:
             # TODO: this might be 4 bytes on LP64 mode:
-            self.size_t_type = self.long_type
+            self.ptrdiff_t_type = self.long_type
+            self.size_t_type = self.get_type(["unsigned", "long"])
 
         # Working variables:
         self.compounds = []
@@ -835,7 +838,7 @@ class CSemantics:
                             location,
                         )
 
-                    result_typ = self.size_t_type
+                    result_typ = self.ptrdiff_t_type
 
                 else:
                     # pointer - integer
